@@ -1,6 +1,70 @@
 From Coq Require Import ZArith List.
 From PV Require Import Base.U64 E3.E3_Run C01.C01_Model C01.C01_Tac C01.C01_Excl C01.C01_Inv2 C01.C01_I2
-  C01.C01_Handoff C01.C01_Finding C01.C01_Spin_Model C01.C01_Spin_Proofs C01.C01_Mcs C01.C01_Mcs2.
+  C01.C01_Handoff C01.C01_Finding C01.C01_Spin_Model C01.C01_Spin_Proofs C01.C01_Mcs C01.C01_Mcs2
+  C01.C01_Own2 C01.C01_Own3 C01.C01_Ex.
+Import ListNotations.
+(* ---- ownership: every mutex class (mutex, seq_mutex, recursive_mutex), every interleaving, any number of
+   threads / vCPUs, code as written after the F33 repair (both arms of the `aintr` switch) ---------------- *)
+(* a completed lock() / try_lock() (the thread sits at the return) returned 0 iff the caller is the owner,
+   iff it is inside; and the caller is in no wait queue (its waitq field is null) *)
+Theorem lock_result_iff_owner : forall s, reachable s -> forall t m r e,
+  pc (th s t) = PRet (RLock m) r e \/ pc (th s t) = PRet (RTry m) r e ->
+  (r = 0%Z <-> owner (mx s m) = Some t) /\ (r = 0%Z <-> (cnt (th s t) m > 0)%nat) /\
+  wq (th s t) = None /\ forall m', ~ In t (wqm (mx s m')).
+Proof. exact lock_result_l. Qed.
+Print Assumptions lock_result_iff_owner.
+Example lock_result_hyps_failed : exists s, run (ex_init false false) ex_timeout_sched = Some s /\ reachable s /\
+  pc (th s 1%nat) = PRet (RLock 0%nat) (-1)%Z ETIMEDOUT /\ owner (mx s 0%nat) = Some 0%nat /\
+  (cnt (th s 0%nat) 0%nat > 0)%nat.
+Proof. exact ex_lock_failed_l. Qed.
+Example lock_result_hyps_handed : exists s, run f_init (f_sched ++ [LStep 1%nat]) = Some s /\ reachable s /\
+  pc (th s 1%nat) = PRet (RLock 0%nat) 0%Z 0%Z /\ (cnt (th s 1%nat) 0%nat > 0)%nat.
+Proof. exact ex_lock_handed_l. Qed.
+(* at most one thread is between a lock()/try_lock() that returned 0 and its unlock(); recursive_mutex included *)
+Theorem mutex_excl : forall s, reachable s -> forall m t1 t2,
+  (cnt (th s t1) m > 0)%nat -> (cnt (th s t2) m > 0)%nat -> t1 = t2.
+Proof. exact mutex_excl_l. Qed.
+Print Assumptions mutex_excl.
+Theorem holder_is_owner : forall s, reachable s -> forall m t,
+  (cnt (th s t) m > 0)%nat -> owner (mx s m) = Some t.
+Proof. exact holder_is_owner_l. Qed.
+Print Assumptions holder_is_owner.
+(* recursive_mutex::recursive_count is the owner's nesting depth *)
+Theorem recursive_count_is_depth : forall s, reachable s -> forall m t, recursive (mx s m) = true ->
+  owner (mx s m) = Some t -> rcnt (mx s m) = Z.of_nat (cnt (th s t) m).
+Proof. exact recursive_count_l. Qed.
+Print Assumptions recursive_count_is_depth.
+Example recursive_hyps : exists s, run (ex_init false true) ex_rec_sched = Some s /\ reachable s /\
+  recursive (mx s 0%nat) = true /\ cnt (th s 0%nat) 0%nat = 2%nat /\ owner (mx s 0%nat) = Some 0%nat /\
+  rcnt (mx s 0%nat) = 2%Z.
+Proof. exact ex_recursive_l. Qed.
+(* not left stuck, part 1: whoever `owner` names is inside, or is still in lock()/unlock() at a point from which
+   it will learn it: about to return 0 / releasing, or being handed the mutex with the evidence intact (still
+   queued, or error_number = -1) — never a thread whose lock() has failed *)
+Theorem owner_accounted : forall s, reachable s -> forall m t, owner (mx s m) = Some t ->
+  (cnt (th s t) m > 0)%nat \/
+  must (pc (th s t)) m = true \/
+  (pcwait (pc (th s t)) m = true /\ (In t (wqm (mx s m)) \/ err (th s t) = (-1)%Z)) \/
+  (exists c, lm c = m /\ ((pc (th s t) = PS1 (SLock c) /\ err (th s t) = (-1)%Z) \/
+                          pc (th s t) = PS2 (SLock c) (-1)%Z \/ pc (th s t) = PLchk c)).
+Proof. exact owner_accounted_l. Qed.
+Print Assumptions owner_accounted.
+(* not left stuck, part 2: a free mutex with waiters has a thread on the way: an unlocker about to wake the head,
+   a waiter woken by the hand-off (error_number = -1, out of the queue) that has not yet re-tried, or a thread at
+   the CAS under the splock *)
+Theorem not_stuck : forall s, reachable s -> forall m,
+  owner (mx s m) = None -> wqm (mx s m) <> [] ->
+  exists t,
+    (exists x, pc (th s t) = PUint m x) \/
+    (pcwait (pc (th s t)) m = true /\ wq (th s t) = None /\ ~ In t (wqm (mx s m)) /\ err (th s t) = (-1)%Z) \/
+    (exists c, lm c = m /\ ((pc (th s t) = PS1 (SLock c) /\ err (th s t) = (-1)%Z) \/ pc (th s t) = PS2 (SLock c) (-1)%Z \/
+                            pc (th s t) = PLchk c \/ pc (th s t) = PLspl c \/ pc (th s t) = PLcas2 c)).
+Proof. exact not_stuck_l. Qed.
+Print Assumptions not_stuck.
+Example not_stuck_hyps : exists s, run (ex_init true false) ex_free_sched = Some s /\ reachable s /\
+  owner (mx s 0%nat) = None /\ wqm (mx s 0%nat) = [1%nat] /\ pc (th s 0%nat) = PUint 0%nat 1%nat.
+Proof. exact ex_free_with_waiter_l. Qed.
+(* ---- exclusion / wait queue / hand-off (also hold for the code before the repair) ------------------------ *)
 Theorem mutex_excl_plain : forall s, reachable s ->
   forall m t1 t2, recursive (mx s m) = false ->
     (cnt (th s t1) m > 0)%nat -> (cnt (th s t2) m > 0)%nat -> t1 = t2.
@@ -33,10 +97,17 @@ Theorem handoff_step : forall s, reachable s -> forall u m x s',
   forall y, y <> x -> In y (wqm (mx s m)) -> In y (wqm (mx s' m)) /\ st (th s' y) = SLEEPING.
 Proof. exact handoff_step_l. Qed.
 Print Assumptions handoff_step.
+(* finding F33 (fixed in /repo, commit 34f175e): BEFORE the repair (PIo2 a plain store) a 33-step schedule ends
+   with lock() = -1/EINTR while owner == CURRENT; with the repair the same schedule ends with lock() = 0 *)
 Theorem lock_result_refuted :
-  exists s, reachable s /\ aintr s = false /\ lock_failed_but_owner s 1%nat 0%nat.
+  exists s, reachable_prefix s /\ aintr s = false /\ lock_failed_but_owner s 1%nat 0%nat.
 Proof. exact lock_result_refuted_l. Qed.
 Print Assumptions lock_result_refuted.
+Theorem f33_schedule_repaired :
+  exists s, run f_init (f_sched ++ [LStep 1%nat]) = Some s /\ reachable s /\ aintr s = false /\
+            pc (th s 1%nat) = PRet (RLock 0%nat) 0%Z 0%Z /\ owner (mx s 0%nat) = Some 1%nat /\ cnt (th s 1%nat) 0%nat = 1%nat.
+Proof. exact f33_schedule_repaired_l. Qed.
+Print Assumptions f33_schedule_repaired.
 Theorem tas_excl : forall scr s, tas_reach scr s ->
   forall p q, t_ins (tl_th s p) = true -> t_ins (tl_th s q) = true -> p = q.
 Proof. exact tas_excl_l. Qed.
